@@ -120,7 +120,11 @@ def gen_scenario(seed, opts):
     all_inputs = []
     files["common.h"] = "header"
     files["extra.h"] = "header2"
-    enabled_fault_kinds = [k for k in ("childexit", "childsig", "callockill", "openr", "readerr", "openw", "writeerr", "closeerr", "forkfail", "execfail", "mkstempfail")
+    if r.below(10) == 0:
+        # the user's own programs called `as` / `ld` / `chibicc` in the working directory: never what the driver runs
+        for nm in r.sample(["as", "ld", "chibicc"], r.range(1, 2)):
+            files[nm] = "script"
+    enabled_fault_kinds = [k for k in ("childexit", "childsig", "childstop", "callockill", "openr", "readerr", "openw", "writeerr", "closeerr", "forkfail", "execfail", "mkstempfail")
                            if r.below(2)]  # swarm: a random subset per run
     for i in range(ninv):
         mode = r.pick(["E", "S", "c", "c", "link", "link", "E", "S", "c", "c", "link", "link", "M"])
@@ -268,6 +272,8 @@ def gen_scenario(seed, opts):
         inv = {"argv": argv, "stdout": so_kind, "stderr": "devfull" if r.below(30) == 0 else "file", "faults": []}
         if so_kind == "file" and r.below(25) == 0:
             inv["stdin"] = "closed"  # descriptor 0 is free: the first open() of every process returns 0
+        if r.below(6) == 0:
+            inv["argv0"] = "bare"         # started through PATH: argv[0] is just "chibicc"
         if r.below(30) == 0:
             inv["sigchld"] = "ignored"   # inherited from a nohup-style parent: the kernel reaps the children itself and wait() fails with ECHILD
         invs.append(inv)
@@ -324,6 +330,10 @@ def gen_fault(r, m, enabled):
         return None
     kind = r.pick(enabled)
     procs = [s for s in steps]
+    if kind == "childstop":
+        if not procs:
+            return None
+        return {"proc": r.pick(procs), "ev": "*", "n": r.pick([1, 2, 2, 3, 4, 6]), "act": "stop"}
     if kind in ("childexit", "childsig"):
         if not procs:
             return None
@@ -517,7 +527,7 @@ def unesc(s):
 
 class Proc:
     __slots__ = ("conn", "buf", "pid", "ppid", "inv", "role", "state", "req", "nev", "kcount", "parent", "live_children", "dead_unreaped",
-                 "exit_event", "injected_end", "events", "pending_children", "label", "execd", "exec_failed")
+                 "exit_event", "injected_end", "events", "pending_children", "label", "execd", "exec_failed", "stopped")
 
     def __init__(self, conn):
         self.conn = conn
@@ -538,6 +548,7 @@ class Proc:
         self.label = "?"
         self.execd = False
         self.exec_failed = False
+        self.stopped = False
 
 
 class Machine:
@@ -572,9 +583,11 @@ class Machine:
                 os.makedirs(p, exist_ok=True)
                 continue
             ident = "".join(c for c in name if c.isalnum())
-            data = "#define COMMON 7\n" if kind == "header" else "#define EXTRA 11\n" if kind == "header2" else "keep\n" if kind == "text" else file_content(kind, ident)
+            data = "#!/bin/sh\nexit 0\n" if kind == "script" else "#define COMMON 7\n" if kind == "header" else "#define EXTRA 11\n" if kind == "header2" else "keep\n" if kind == "text" else file_content(kind, ident)
             with open(p, "w") as f:
                 f.write(data)
+            if kind == "script":
+                os.chmod(p, 0o755)
         for name, data in sorted(self.scn["pre"].items()):
             with open(os.path.join(cwd, name), "w") as f:
                 f.write(data)
@@ -631,6 +644,10 @@ class Machine:
             alive = [c.label for c in self.procs if c.parent is p and c.state != "dead"]
             if alive:
                 self.inv_state[p.inv]["orphans"] += alive
+            for c in self.procs:
+                if c.parent is p and c.stopped:
+                    c.stopped = False
+                    os.kill(c.pid, signal.SIGCONT)
         how = "after-" + (p.exit_event or "nothing")
         if p.injected_end:
             how = p.injected_end
@@ -700,7 +717,9 @@ class Machine:
                 p.exec_failed = True
             if w[1] == "created" and len(w) >= 4:
                 self.inv_state[p.inv]["created"].append((w[2], unesc(w[3])))
-            if w[1] == "wait" and int(w[2]) > 0:
+            if w[1] == "wait" and int(w[2]) > 0 and (int(w[3]) & 0xff) == 0x7f:
+                pass        # a stopped child was reported (WUNTRACED): nobody has been reaped
+            elif w[1] == "wait" and int(w[2]) > 0:
                 p.dead_unreaped -= 1
                 self.inv_state[p.inv]["waits"].append((int(w[2]), int(w[3])))
             if w[1] == "fopen" and p.events:
@@ -727,10 +746,11 @@ class Machine:
                     self.read_proc(key.data)
 
     def grantable(self, p):
-        if p.state != "parked":
+        if p.state != "parked" or p.stopped:
             return False
         if p.req[0] == "wait":
-            return p.dead_unreaped > 0 or p.live_children == 0
+            wants_stops = bool(p.req[1]) and p.req[1][0] == "1"
+            return p.dead_unreaped > 0 or p.live_children == 0 or (wants_stops and any(c.parent is p and c.stopped for c in self.procs))
         if p.req[0] == "spawnwait":
             # posix_spawn emulation: the parent may go on once its child has exec'ed, failed to exec, or died
             c = self.by_pid.get(int(p.req[1][0]))
@@ -779,6 +799,21 @@ class Machine:
             elif act == "exit" and p.role != "driver":
                 reply = "EXIT %d" % f["status"]
                 p.injected_end = "exit-%d-injected" % f["status"]
+            elif act == "stop" and p.role != "driver" and p.parent is not None and kind not in ("exit", "_exit"):
+                # job control / a debugger stops the child here. A parent that waits with WUNTRACED hears about it; for everybody
+                # else nothing has happened and the child goes on at once
+                self.used_faults.add((p.inv, fi))
+                self.fault_fired.append((p.inv, p.label, "stop at %s" % ekind))
+                par = p.parent
+                if par.state == "parked" and par.req and par.req[0] == "wait" and par.req[1] and par.req[1][0] == "1":
+                    os.kill(p.pid, signal.SIGSTOP)
+                    p.stopped = True
+                    p.nev -= 1
+                    p.kcount[ekind] -= 1
+                    self.nevents -= 1
+                    self.ev(p, "stopped", "before " + ekind)
+                    return
+                f = None
             elif act == "callockill" and kind == "start":
                 reply = "GO ck=%d cksig=%d" % (f["k"], f["sig"])
                 ok = False  # counts as fired only when the k-th allocation is reached
@@ -897,7 +932,9 @@ class Machine:
                 e = dict(env)
                 e["VSIM_TAG"] = str(i)
                 self.pending_hello += 1
-                popen[i] = subprocess.Popen([self.env["cc"]] + inv["argv"], cwd=self.cwd, env=e, stdin=subprocess.DEVNULL, stdout=so, stderr=se,
+                if inv.get("argv0") == "bare":      # found through PATH, as users do: argv[0] has no slash in it
+                    e["PATH"] = e["PATH"] + ":" + os.path.dirname(self.env["cc"])
+                popen[i] = subprocess.Popen([("chibicc" if inv.get("argv0") == "bare" else self.env["cc"])] + inv["argv"], executable=self.env["cc"], cwd=self.cwd, env=e, stdin=subprocess.DEVNULL, stdout=so, stderr=se,
                                             start_new_session=True, preexec_fn=pre_exec(inv))
             verdict = None
             while True:
@@ -906,6 +943,13 @@ class Machine:
                 if not live:
                     break
                 cands = [p for p in live if self.grantable(p)]
+                if not cands and any(p.stopped for p in live):
+                    for p in live:
+                        if p.stopped:       # whoever stopped it continues it eventually
+                            p.stopped = False
+                            os.kill(p.pid, signal.SIGCONT)
+                            self.ev(p, "continued", "")
+                    continue
                 if not cands:
                     verdict = ("deadlock", "live processes but none can be granted: " + ", ".join("inv%d %s waits at %s" % (p.inv, p.label, p.req[0]) for p in live))
                     break
@@ -1019,7 +1063,7 @@ def reference_run(env, wdir, scn, i, cache):
     inv = scn["invocations"][i]
     m = model(inv, scn["files"])
     used = sorted((n, scn["files"].get(n)) for n in scn["files"])
-    key = json.dumps([scn["tools"], inv["argv"], inv["stdout"], inv.get("stdin"), used], sort_keys=True)
+    key = json.dumps([scn["tools"], inv["argv"], inv["stdout"], inv.get("stdin"), inv.get("argv0"), used], sort_keys=True)
     if key in cache:
         return cache[key]
     mach = Machine(env, wdir, {"files": scn["files"], "pre": {}, "tools": scn["tools"], "invocations": scn["invocations"]}, [i], {"kind": "serial"})
@@ -1029,7 +1073,9 @@ def reference_run(env, wdir, scn, i, cache):
     so = open(os.path.join(wdir, "ref.stdout"), "wb") if inv["stdout"] != "devfull" else open("/dev/full", "wb")
     with so, open(os.path.join(wdir, "ref.stderr"), "wb") as se:
         try:
-            rc = subprocess.run([env["cc"]] + inv["argv"], cwd=mach.cwd, env=e, stdin=subprocess.DEVNULL, stdout=so, stderr=se, timeout=60,
+            if inv.get("argv0") == "bare":
+                e["PATH"] = e["PATH"] + ":" + os.path.dirname(env["cc"])
+            rc = subprocess.run([("chibicc" if inv.get("argv0") == "bare" else env["cc"])] + inv["argv"], executable=env["cc"], cwd=mach.cwd, env=e, stdin=subprocess.DEVNULL, stdout=so, stderr=se, timeout=60,
                                 preexec_fn=pre_exec(inv, reference=True)).returncode
         except subprocess.TimeoutExpired:
             raise Inconclusive("reference run timed out")
@@ -1609,7 +1655,7 @@ def describe(scn):
     for n in sorted(scn["pre"]):
         out.append("  pre-existing %s" % n)
     for i, inv in enumerate(scn["invocations"]):
-        out.append("  inv%d: chibicc %s%s" % (i, " ".join(inv["argv"]), (" > /dev/full" if inv["stdout"] == "devfull" else " >&-" if inv["stdout"] == "closed" else "") + (" <&-" if inv.get("stdin") == "closed" else "") + (" [SIGCHLD ignored]" if inv.get("sigchld") == "ignored" else "") + (" 2> /dev/full" if inv.get("stderr") == "devfull" else "")))
+        out.append("  inv%d: chibicc %s%s" % (i, " ".join(inv["argv"]), (" > /dev/full" if inv["stdout"] == "devfull" else " >&-" if inv["stdout"] == "closed" else "") + (" <&-" if inv.get("stdin") == "closed" else "") + (" [SIGCHLD ignored]" if inv.get("sigchld") == "ignored" else "") + (" [argv0=chibicc via PATH]" if inv.get("argv0") == "bare" else "") + (" 2> /dev/full" if inv.get("stderr") == "devfull" else "")))
         for f in inv["faults"]:
             out.append("        fault: %s" % json.dumps(f, sort_keys=True))
     s = scn.get("sched", {})
